@@ -118,7 +118,32 @@ def make_service():
     # the method table is a public dict: one method is put there directly, one is registered and then replaced in place
     s.methods[M_NONE] = h_none
     s.register_method(M_REJECT, h_none)
-    s.methods[M_REJECT] = h_reject
+    # the rejecting handler comes in the forms applications write: a function raising the library's error with a text, a
+    # functools.partial raising the application's own subclass of it, an object with __call__ raising it bare
+    form = _MADE[0] % 3
+    if form == 1:
+        import functools
+
+        class PayloadLengthError(SV.MalformedMessageError):
+            pass
+
+        def reject_with(exc_type, msg, addr):
+            calls.append(("reject", msg.session_id))
+            try:
+                msg.payload[70000]
+            except IndexError as exc:
+                raise exc_type(len(msg.payload)) from exc
+
+        s.methods[M_REJECT] = functools.partial(reject_with, PayloadLengthError)
+    elif form == 2:
+        class Rejecter:
+            def __call__(self, msg, addr):
+                calls.append(("reject", msg.session_id))
+                raise SV.MalformedMessageError
+
+        s.methods[M_REJECT] = Rejecter()
+    else:
+        s.methods[M_REJECT] = h_reject
     # the service's announcement history is no part of how it answers calls: every other service object has been announced on one
     # (never started) discovery stack and on a second one, and withdrawn again from the first - its endpoint stays open
     _MADE[0] += 1
